@@ -7,6 +7,10 @@ conversion of a scalar value neither wins over nor ties with an otherwise identi
 candidate whose parameters match the arguments is never reported as rejected), level B = the implementation-shaped model (sequential matcher,
 documented rank formula, stable sort + tie test).  MCResolution.tla enumerates families x argument tuples x registration
 orders, checks B against A's clauses and order independence exhaustively, and prints every scenario with B's predictions.
+Variadic candidates (OperatorImpl.variadic; a candidate line marks its tail pattern with '*') are part of both levels: level A
+says what a tail accepts (every tail argument an instance of the tail pattern under its own extension of the fixed parameters'
+bindings; the result bindings and the output come from the fixed parameters alone), level B is the tail loop with the scoped
+copy of the map; the named faults of level B (Resolution.fault_*.cfg) must violate level A.
 Each scenario is replayed (all registration orders) into build/hgv_resolve, which registers run-time constructed overloads
 in the real OperatorRegistry; every recorded outcome is validated by spec/ResolutionTrace.tla (level A -> VIOLATION) and
 compared with B's prediction (mismatch -> DRIFT)."""
@@ -22,6 +26,8 @@ import hg
 import tracecheck
 
 KEEP = {"solo", "res", "end"}
+FAULTS = ("tail_scalar_shares_map", "tail_ts_shares_map", "tail_ignores_fixed_bindings", "tail_first_argument_only",
+          "unbound_output_size_defaults")
 SIG = {"k": "SIG", "s": "", "c": []}
 
 
@@ -125,7 +131,10 @@ def bind_term(var, text):
 
 # ------------------------------------------------------------------------------------------ scenarios
 def cand_line(c):
-    return "c %s %s -> %s" % (c["l"], ";".join(term_text(p) for p in c["ps"]) or "-", term_text(c["o"]))
+    ps = [term_text(p) for p in c["ps"]]
+    if c.get("v"):
+        ps[-1] = "*" + ps[-1]      # the tail pattern of a variadic candidate
+    return "c %s %s -> %s" % (c["l"], ";".join(ps) or "-", term_text(c["o"]))
 
 
 def scenario_text(name, cands, args, orders):
@@ -146,7 +155,9 @@ def parse_scenario(text):
         if w[0] == "fam":
             name = w[1] if len(w) > 1 else name
         elif w[0] == "c":
-            cands.append({"l": w[1], "ps": [] if w[2] == "-" else [parse_term(x) for x in w[2].split(";")], "o": parse_term(w[4])})
+            ps = [] if w[2] == "-" else w[2].split(";")
+            var = bool(ps) and ps[-1].startswith("*")
+            cands.append({"l": w[1], "ps": [parse_term(x.lstrip("*")) for x in ps], "o": parse_term(w[4]), "v": var})
         elif w[0] == "args":
             args = [] if len(w) < 2 or w[1] == "-" else [parse_term(x) for x in w[1].split(";")]
         elif w[0] == "order":
@@ -173,6 +184,7 @@ def trace_item(k, cands, args, events):
                        "bind": [[v, bind_term(v, t)] for v, t in e["bind"]],
                        "out": parse_term(e["out"]) if e["kind"] == "ok" else SIG, "tied": e["amb"], "rej": e["rej"]})
     ev.append({"e": "end"})
+    cands = [{"l": c["l"], "ps": c["ps"], "o": c["o"], "v": bool(c.get("v"))} for c in cands]
     return {"id": k, "prog": {"cands": cands, "args": args}, "ev": ev}
 
 
@@ -222,6 +234,9 @@ def main():
     chk = hg.Check("C19")
     quick = chk.tier == "quick"
     rng = random.Random(hg.seed() * 131 + 19)
+    # 0. level B with a named slip must violate level A (the invariants have teeth); runs while the rest works
+    faults = hg.models_start([("MCResolution", "Resolution.fault_%s.cfg" % f, "InvLevelA", "Resolution-fault-" + f) for f in FAULTS],
+                             workers=1)
     # 1. exhaustive: level B against level A's clauses, order independence, matcher agreement; prints every scenario
     res = hg.tlc("MCResolution", "Resolution.quick.cfg" if quick else "Resolution.thorough.cfg", timeout=3600)
     if res.violation:
@@ -237,7 +252,7 @@ def main():
     if not pool:
         raise hg.MachineryError("MCResolution did not print its pools")
     cand_of = {c["l"]: c for c in pool[0]["c"]}
-    args_of = {"u": pool[0]["au"], "b": pool[0]["ab"]}
+    args_of = {"u": pool[0]["au"], "b": pool[0]["ab"], "v": pool[0]["av"]}
     printed = hg.printed_json(res, "RES")
     if not printed:
         raise hg.MachineryError("MCResolution printed no scenario")
@@ -250,12 +265,18 @@ def main():
     # 2. beyond the model's bound: larger random families from the whole pool, validated by level A only
     labels_u = sorted(l for l in cand_of if l.startswith("u"))
     labels_b = sorted(l for l in cand_of if l.startswith("b"))
+    labels_v = sorted(l for l in cand_of if l.startswith("v"))
     for k in range(250 if quick else 6000):
-        two = rng.random() < 0.5
-        base = labels_b if two else labels_u
-        fam = rng.sample(base, rng.choice([4, 4, 5])) + (rng.sample(labels_u if two else labels_b, 1) if rng.random() < 0.2 else [])
+        kind = rng.choice("uubbv")
+        if kind == "v":     # variadic candidates next to fixed-arity ones of both arities, argument tuples of length 0..4
+            fam = rng.sample(labels_v, rng.choice([2, 3])) + rng.sample(labels_u, rng.choice([0, 1, 2])) + rng.sample(labels_b, rng.choice([1, 2]))
+        else:
+            two = kind == "b"
+            base = labels_b if two else labels_u
+            fam = rng.sample(base, rng.choice([4, 4, 5])) + (rng.sample(labels_u if two else labels_b, 1) if rng.random() < 0.2 else []) \
+                + (rng.sample(labels_v, 1) if rng.random() < 0.2 else [])
         fam.sort()
-        args = rng.choice(args_of["b" if two else "u"])
+        args = rng.choice(args_of[kind])
         cases.append(("r%d" % k, [cand_of[l] for l in fam], args, all_orders(fam, rng, 12), None))
 
     drift = {"rank_formula": 0, "pattern_rank": 0, "effective_rank": 0, "survivor_set": 0, "outcome": 0, "observer": 0}
@@ -291,7 +312,7 @@ def main():
             for e in ress:
                 if e["kind"] == "ok" and e["dsel"] != e["sel"]:
                     drift["observer"] += 1
-            if len(cands) == 1 and len(args) == 1:
+            if len(cands) == 1 and len(args) == 1 and not cands[0].get("v"):
                 c = solo[0]["c"][0]
                 base, acc = singles.setdefault(c["l"], (c["base"], set()))
                 if c["m"]:
@@ -344,6 +365,8 @@ def main():
             chk.violation("res:%s:%s" % (why, case), desc, replay)
     if rejected:
         chk.notes["rejected_scenarios_per_clause"] = per_clause
+    hg.models_finish(chk, faults)
+    chk.notes["level_B_named_faults_rejected_by_level_A"] = list(FAULTS)
     chk.coverage["states"] += st
     chk.coverage["transitions"] += trn
     chk.coverage["traces_validated_against_impl"] += nitems
@@ -363,7 +386,10 @@ def main():
         "Resolution.tla exhaustively: every family of %s x every argument tuple of that arity (%s) x every registration order "
         "(+ mixed-arity families + focus groups: every family of 1..3 of {scalar parameter exact / converted / variable / promoted}, "
         "of overloads that differ only in a concrete scalar parameter, of REF / SIGNAL patterns nested in TSD / TSL / TSB next to "
-        "their bare-variable and structural rivals, each x the argument tuples that separate them)%s; each (family, arguments) is replayed in all its registration orders (and every candidate "
+        "their bare-variable and structural rivals, of output patterns whose size variable no input binds next to legitimate rivals, "
+        "of VARIADIC candidates (18: tail-only / shared / size variables, REF / SIGNAL / concrete tails, 0..2 fixed parameters) next to "
+        "fixed-arity rivals x 34 argument tuples of length 0..4 with time-series and plain values in heterogeneous tails of length 0..3, "
+        "each x the argument tuples that separate them)%s; each (family, arguments) is replayed in all its registration orders (and every candidate "
         "alone) against the real OperatorRegistry; plus random families of 4-6 overloads from the whole pool in up to 12 orders "
         "(level A only); non-trivial = more than one overload and at least one of them matches; distinct = distinct "
         "(family, arguments)") % (
@@ -371,8 +397,9 @@ def main():
         ("1..3 overloads of one arity drawn from 24 arity-1 / 20 arity-2 candidates and of 1..2 drawn from all 40 / 34", "26 / 36 tuples",
          "; families of 1..4 from the quick pool in all 24 orders are model checked without replay"))
     chk.assumptions.append("overloads are run-time constructed OperatorImpl records (patterns built with TypePattern / ScalarPattern / "
-                           "ParamPattern, rank from operator_dispatch_detail::operator_rank); no defaults, kwargs, variadic tails, "
-                           "requires predicates, size hints or requested output types; REF in argument types at the top level and as a TSD value / "
+                           "ParamPattern, rank from operator_dispatch_detail::operator_rank); variadic tails are positional overflow arguments "
+                           "(no packed from_variadic_tail TSL source, no keyword-only parameters behind the tail); no defaults, kwargs collectors, "
+                           "requires predicates, default resolvers, size hints or requested output types; REF in argument types at the top level and as a TSD value / "
                            "TSL element; scalar values int 7 / float 1.5 / str \"x\"")
     return chk.finish()
 
